@@ -85,13 +85,63 @@ def _apply(s, prefixes):
     return s
 
 
-def plan(crate_j):
-    """what has to be renamed in this crate: (prefixes, exact_fields, report)"""
+def plan(crate_j, phase):
+    """what has to be renamed in this crate: (prefixes, exact_fields, report). phase 1: impl-block numbering only; phase 2: the rest
+    (planned on the already renumbered keys)"""
     sp = spec()
     crate = crate_j.get("crate", "")
     report = []
     prefixes = []
     exact_fields = {}
+    # impl blocks are numbered per module in source order ({impl#N}): adding, removing or moving one renumbers the others.
+    # Each current impl is given the key of the pinned impl with the same (self type, trait) in the same module.
+    pimpls = sp.get("impls", {}) if phase == 1 else {}
+    if pimpls:
+        cur_impls = [im for im in crate_j.get("impls", []) if "::{impl#" in im["key"].rsplit("::", 1)[-1] or im["key"].rsplit("::", 1)[-1].startswith("{impl#")]
+        by_mod = {}
+        for im in cur_impls:
+            by_mod.setdefault(_parent(im["key"]), []).append(im)
+        pin_by_mod = {}
+        for k, (slf, tr) in pimpls.items():
+            if k.split("::")[0] == crate and k.rsplit("::", 1)[-1].startswith("{impl#"):
+                pin_by_mod.setdefault(_parent(k), []).append((k, slf, tr))
+        tmp_n = [0]
+        for mod, cims in sorted(by_mod.items()):
+            pins = sorted(pin_by_mod.get(mod, []))
+            if not pins:
+                continue
+            cims = sorted(cims, key=lambda im: int(re.search(r"impl#(\d+)", im["key"].rsplit("::", 1)[-1]).group(1)))
+            assign = {}
+            used = set()
+            for im in cims:
+                sig = (im.get("self", ""), im.get("trait", "") or "")
+                for k, slf, tr in pins:
+                    if k not in used and (slf, tr) == sig:
+                        assign[im["key"]] = k
+                        used.add(k)
+                        break
+            if all(a == b for a, b in assign.items()) and not [im for im in cims if im["key"] not in assign and im["key"] in pimpls]:
+                continue
+            # everything that changes (or would collide) goes through a temporary name
+            taken = set(assign.values())
+            fresh = 900
+            for im in cims:
+                old = im["key"]
+                new = assign.get(old)
+                if new is None:
+                    if old in taken or old in pimpls:
+                        new = "%s::{impl#%d}" % (mod, fresh)
+                        fresh += 1
+                    else:
+                        continue
+                if new != old:
+                    tmp = "%s::{impl@%d}::{user}" % (mod, tmp_n[0])
+                    tmp_n[0] += 1
+                    prefixes.append((old, tmp))
+                    prefixes.append((tmp, new))
+                    report.append("impl %s is the pinned %s (same self type and trait)" % (old, new) if old in assign else "impl %s is new; renumbered to %s" % (old, new))
+    if phase == 1:
+        return prefixes, exact_fields, report
     sigs = sp.get("sigs", {})
     if sigs:
         cur = {f["key"]: f for f in crate_j.get("fns", [])}
@@ -183,25 +233,29 @@ def _is_instrument_wrapper(crate_j, outer, inner):
 def canonicalise_all(crates):
     """crates: list of crate JSON objects (lib crates of one extraction). Plans per crate, applies to all (a renamed
     public field or fn is referenced from other crates too). Returns the list of report lines."""
-    prefixes, fields, report = [], {}, []
+    all_report = []
+    for phase in (1, 2):
+        prefixes, fields, report = [], {}, []
+        for j in crates:
+            p, f, r = plan(j, phase)
+            prefixes += p
+            fields.update(f)
+            report += r
+        if not prefixes and not fields:
+            continue
+        pass_a = sorted([p for p in prefixes if not p[0].endswith("::{user}")], key=lambda p: -len(p[0]))
+        pass_b = [p for p in prefixes if p[0].endswith("::{user}")]
+        for j in crates:
+            _walk_replace(j, pass_a, fields)
+            if pass_b:
+                _walk_replace(j, pass_b, None)
+            for a in j.get("adts", []):
+                m = fields.get(a.get("key"))
+                if m and a.get("variants"):
+                    for f in a["variants"][0].get("fields", []):
+                        if f["name"] in m:
+                            f["name"] = m[f["name"]][0]
+        all_report += report
     for j in crates:
-        p, f, r = plan(j)
-        prefixes += p
-        fields.update(f)
-        report += r
-    if not prefixes and not fields:
-        return []
-    pass_a = sorted([p for p in prefixes if not p[0].endswith("::{user}")], key=lambda p: -len(p[0]))
-    pass_b = [p for p in prefixes if p[0].endswith("::{user}")]
-    for j in crates:
-        _walk_replace(j, pass_a, fields)
-        if pass_b:
-            _walk_replace(j, pass_b, None)
-        for a in j.get("adts", []):
-            m = fields.get(a.get("key"))
-            if m and a.get("variants"):
-                for f in a["variants"][0].get("fields", []):
-                    if f["name"] in m:
-                        f["name"] = m[f["name"]][0]
-        j["canonicalised"] = report
-    return report
+        j["canonicalised"] = all_report
+    return all_report
